@@ -82,7 +82,7 @@ def snapshot(obj, cls):
 class C16(Check):
     pid = "C16"
     level = "exploration"
-    budgets = {"quick": (400, 16), "thorough": (5000, 16)}
+    budgets = {"quick": (400, 16), "thorough": (2000, 16)}
     rule = (
         "A program = 2-4 inputs of one class (Points, Curve, Surface, DrapeModel) on a half-integer lattice, 1-7 "
         "vertices each; cells = arbitrary index tuples over arbitrary subsets of the vertices in arbitrary order "
